@@ -141,16 +141,18 @@ type hsCase struct {
 	AbsClock    int64  `json:"abs_clock,omitempty"`
 }
 
+// methodByte: the number each documented encryption-method name has on the wire (Cloak v2: a peer of
+// another build relies on these literal values, so they are not taken from the package's constants).
 func methodByte(m string) byte {
-	switch m {
+	switch strings.ToLower(m) {
 	case "plain":
-		return mux.EncryptionMethodPlain
-	case "aes-256-gcm":
-		return mux.EncryptionMethodAES256GCM
-	case "aes-128-gcm":
-		return mux.EncryptionMethodAES128GCM
+		return 0
+	case "aes-256-gcm", "aes-gcm": // README: aes-256-gcm "(synonymous to aes-gcm)"
+		return 1
 	case "chacha20-poly1305":
-		return mux.EncryptionMethodChaha20Poly1305
+		return 2
+	case "aes-128-gcm":
+		return 3
 	}
 	panic(m)
 }
@@ -202,6 +204,9 @@ func uidOfClass(class string) []byte {
 	return u
 }
 
+// hsBigLen: payload bytes of one full frame under the production message limit (16401 - 14 - 255).
+const hsBigLen = 16132
+
 func hsAgree(cs hsCase) string {
 	uid := uidOfClass(cs.UIDClass)
 	r := newE2ERig(newMemManager(), [][]byte{uid}, nil)
@@ -229,11 +234,27 @@ func hsAgree(cs hsCase) string {
 		if err != nil {
 			return
 		}
-		b := make([]byte, 16)
+		b := make([]byte, 4096)
 		k, _ := c.Read(b)
 		proxyGot = append(proxyGot, b[:k]...)
 		c.Write([]byte("pong"))
 		proxyDone = true
+		// then one full frame's worth of data (see below)
+		big := make([]byte, 0, hsBigLen)
+		for len(big) < hsBigLen {
+			k, err := c.Read(b)
+			big = append(big, b[:k]...)
+			if err != nil {
+				return
+			}
+		}
+		for i, x := range big {
+			if x != byte(i*11+3) {
+				c.Write([]byte("BAD!"))
+				return
+			}
+		}
+		c.Write([]byte("done"))
 	})
 	remote, auth := r.clientCfgFor(cs, uid)
 	conn, err := r.dialer.Dial("tcp", remote.RemoteAddr)
@@ -305,6 +326,23 @@ func hsAgree(cs hsCase) string {
 	}
 	if string(proxyGot) != "ping" {
 		return fmt.Sprintf("the proxy behind method %q received %q", cs.ProxyMethod, proxyGot)
+	}
+	// the largest message the session may put on this connection: a full frame among the stream's first
+	// five with the largest padding draw (16401 bytes with the production limit) passes the transport
+	big := make([]byte, hsBigLen)
+	for i := range big {
+		big[i] = byte(i*11 + 3)
+	}
+	vrt.PlainRandInt = func(n int) int { return n - 1 }
+	_, werr := st.Write(big)
+	vrt.PlainRandInt = nil
+	if werr != nil {
+		return fmt.Sprintf("writing one full frame (%d bytes) on the new session: %v", hsBigLen, werr)
+	}
+	st.SetReadDeadline(time.Now().Add(20 * time.Second))
+	k, err = st.Read(b)
+	if err != nil || string(b[:k]) != "done" {
+		return fmt.Sprintf("a full frame (%d payload bytes, largest padding: the largest message the session's limit allows) sent through the %s transport: the proxy's acknowledgement was %q, %v (session closed: %v %q)", hsBigLen, cs.Transport, b[:k], err, cli.IsClosed(), cli.TerminalMsg())
 	}
 	// what the server decodes from the first packet it saw equals what the client was configured with
 	var first []byte
